@@ -49,6 +49,9 @@ fn order_programs() -> Vec<Prog> {
         mk("reexport-import", "export { order };\nexport const kind = typeof order;\nkind", Some("/app/re.ts")),
         mk("reexport-import-renamed", "export { order as place };\nconst r = await order({k: 4});\nexport const got = r;\nr", Some("/app/re2.ts")),
         mk("module-no-await", "export function go() { return typeof order; }\ngo()", Some("/app/na.ts")),
+        mk("module-fire-and-forget-indirect", "export const a = 1;\n[{k: 1}, {k: 2}].forEach(order);\nexport let b = 2;\nb = 3;\n'end'", Some("/app/ff.ts")),
+        mk("module-indirect-then-await", "export const ps = [{k: 3}, {k: 4}].map(order);\nexport const got = await Promise.all(ps);\ngot.join()", Some("/app/ff2.ts")),
+        mk("script-fire-and-forget-indirect", "[{k: 5}].forEach(order);\nconst n = [{k: 6}, {k: 7}].map(order).length;\n'n:' + n", None),
         mk("method", "class Svc { constructor(){ this.base = 100; } async get(k) { const v = await order({k: k}); return this.base + v; } }\nconst s = new Svc();\nString(await s.get(1))", None),
     ]
 }
